@@ -40,7 +40,7 @@ ASSUMPTIONS = [
     "gradients whose parameter advances by 1 over less than 2 % of the viewBox extent in root space (very short vectors, thin bounding boxes, strong shrinking transforms) are rejected: the 6-decimal rounding of the rewritten parameters is then no longer negligible against the 2.5/255 tolerance",
     "kind-specific attributes are not passed through a template of the other kind (SVG 1.1 literal reading); the generator never produces that constellation",
     "a mismatch that vanishes on the polygonal twin of the source is attributed to skia-pathops (ENGINE) as in the other render-based checks",
-    "open finding F22 (provisional id): a path painted with an objectBoundingBox gradient under an identity CTM keeps bbox units, but remove_empty_subpaths drops subpaths without area that enlarge the bounding box; a colour mismatch on a document with such a shape (own collinearity test) is counted as excluded F22 unless the case is pinned",
+    "open finding C06-BBOX-EMPTYSUB (id to be assigned by the integrator): a path painted with an objectBoundingBox gradient under an identity CTM keeps bbox units, but remove_empty_subpaths drops subpaths without area that enlarge the bounding box; a colour mismatch on a document with such a shape (own collinearity test) is counted as excluded C06-BBOX-EMPTYSUB unless the case is pinned",
     "open finding F10 (a template that picosvg normalises before its user hands the user already-folded / already-resolved values): a mismatch on a document that has such a link and that vanishes when the same gradients are declared templates-first in a leading defs is counted as excluded F10 unless the case is pinned",
 ]
 
@@ -312,8 +312,11 @@ def check_doc(case) -> Result:
                     r.info = None
         except Exception:
             pass
+    from vlib.run import open_finding_ids
+
+    open_ids = open_finding_ids()  # neutralisers act only while their finding is listed as open
     f10_clauses = ("colour-differs", "output-unreadable")
-    if any(v[0] in f10_clauses for v in r.violations) and not pinned:
+    if "F10" in open_ids and any(v[0] in f10_clauses for v in r.violations) and not pinned:
         # (2) open finding F10 (an inherited, already-normalised value can also make the output gradient
         # unrenderable, e.g. a focal point that lands outside its circle)
         try:
@@ -328,12 +331,12 @@ def check_doc(case) -> Result:
                     r.info = None
         except Exception:
             pass
-    if any(v[0] == "colour-differs" for v in r.violations) and not pinned and stats and "leaves" in stats:
-        # (3) open finding F22: remove_empty_subpaths drops area-less subpaths although they belong to the
+    if "C06-BBOX-EMPTYSUB" in open_ids and any(v[0] == "colour-differs" for v in r.violations) and not pinned and stats and "leaves" in stats:
+        # (3) open finding C06-BBOX-EMPTYSUB: remove_empty_subpaths drops area-less subpaths although they belong to the
         # bounding box an objectBoundingBox gradient (kept in bbox units under an identity CTM) refers to
         if any(sp.units == "objectBoundingBox" and sp.ctm_identity and sp.flat_subpath_extends_bbox for sp, _, _ in stats["leaves"]):
             r.violations = [v for v in r.violations if v[0] != "colour-differs"]
-            r.excluded = "F22"
+            r.excluded = "C06-BBOX-EMPTYSUB"
             r.info = None
     classes = set(case.get("feat", []))
     if stats and "leaves" in stats:
